@@ -19,6 +19,7 @@ mod did;
 mod iota;
 mod verifiers;
 mod malformed;
+mod resolver;
 
 // the Kani harness bodies, compiled natively (cfg(not(kani))) and fed with CBMC's concrete values
 #[macro_use]
@@ -116,6 +117,7 @@ fn main() {
     "storage_faults" => storage::faults(&cex),
     "storage_signing" => signing::signing(&cex),
     "document_ops" => docops::document_ops(&cex),
+    "resolver" => resolver::resolver(&cex),
     "kani" => kani_replay(&cex),
     "panic_sweep" => panic_sweep(),
     "selftest" => selftest(),
